@@ -199,11 +199,14 @@ func (r *RoundRobin) UpsertServer(u *url.URL, options ...ServerOption) error {
 	}
 
 	if s, _ := r.findServerByURL(u); s != nil {
+		// Apply the options to a copy: a refused option must leave the server as it was.
+		updated := *s
 		for _, o := range options {
-			if err := o(s); err != nil {
+			if err := o(&updated); err != nil {
 				return err
 			}
 		}
+		s.weight = updated.weight // the weight is all an option can change; s.url is read by NextServer outside the lock
 		r.resetState()
 		return nil
 	}
